@@ -278,7 +278,12 @@ def thorough_extras(prop, mine, repo, seed, results):
                 return dict(unit=u, mutant=os.path.basename(mp), result='patch-does-not-apply')
             r = vx.run_unit(u, 'quick', d, None, seed)
             caught = sorted(list(r['failed'].keys()) + [x['id'] for x in r['panic']])
-            return dict(unit=u, mutant=os.path.basename(mp), result=('caught' if r['status'] == 'violation' else r['status']),
+            harmless = os.path.basename(mp).startswith('harmless_')
+            # harmless_*.patch: an edit that does NOT break the property; expected: no violation (ok or undecided)
+            res = ('caught' if r['status'] == 'violation' else r['status'])
+            if harmless:
+                res = 'FALSE-ALARM' if r['status'] == 'violation' else 'no-alarm (%s)' % r['status']
+            return dict(unit=u, mutant=os.path.basename(mp), expected=('no alarm' if harmless else 'caught'), result=res,
                         failed_obligations=caught)
         finally:
             shutil.rmtree(d, ignore_errors=True)
